@@ -133,6 +133,24 @@ def refusing_edges(b):
     return res
 
 
+SLICE_GET = "core::slice::<impl [T]>::get"
+
+
+def view_facts(b, block):
+    """facts_at plus what a successful bounds-checked read implies: `as_ref(map).get(i)` is Some only if i < map.len() (the
+    slice as_ref hands out has exactly map.len() elements: obligation map-slice-length)."""
+    fs = list(facts_at(b, block))
+    for f in list(fs):
+        if f[0] != "discr" or f[2] != 1:
+            continue
+        x = f[1]
+        while isinstance(x, tuple) and x and x[0] in ("discr", "ref", "deref"):
+            x = x[1]
+        if isinstance(x, tuple) and x and x[0] == "call" and x[1] == SLICE_GET and len(x[2]) == 2 and is_map_slice(x[2][0]):
+            fs.append(("cmp", "Lt", x[2][1], ("call", MAPLEN, (("param", 0, b.local_name(1)),), (), MAPLEN)))
+    return fs
+
+
 def analyse_view(b):
     """Touch sites of a view constructor with the facts that dominate them."""
     sites = []
@@ -171,6 +189,8 @@ def analyse_view(b):
                 sites.append({"kind": "range_from", "block": bi, "idx": rng[4][0], "sp": t["sp"]})
             else:
                 sites.append({"kind": "range_other", "block": bi, "idx": rng, "sp": t["sp"]})
+        if name == SLICE_GET and len(t["args"]) == 2 and is_map_slice(b.term_of_operand(t["args"][0])) and (t["callee"].get("args") or ["", ""])[-1] == "usize":
+            sites.append({"kind": "get", "block": bi, "idx": b.term_of_operand(t["args"][1]), "sp": t["sp"]})
         if name.startswith("std::slice::from_raw_parts"):
             sites.append({"kind": "from_raw_parts", "block": bi, "ptr": b.term_of_operand(t["args"][0]),
                           "count": b.term_of_operand(t["args"][1]), "sp": t["sp"], "elem": (t["callee"].get("args") or ["?", "?"])[-1]})
@@ -179,6 +199,14 @@ def analyse_view(b):
 
 def check_views(ctx, F, tag, prefix):
     vs = views(F)
+    # the element slice of a map has exactly map.len() elements (what makes a bound against map.len() a bound on the slice)
+    if F.has_body(ASREF) and F.has_body(MAPLEN):
+        ab, lb = F.body(ASREF), F.body(MAPLEN)
+        frp = [t for _, t in ab.calls() if callee_name(t).startswith("std::slice::from_raw_parts")]
+        from pat import self_path
+        oka = len(frp) == 1 and self_path(ab.term_of_operand(frp[0]["args"][1])) == ["len"] and self_path(lb.term_of_local(0)) == ["len"]
+        ctx.ob(prefix + ".map-slice-length", ASREF + tag, loc(ab.raw["span"]), oka, "term-shape",
+               "as_ref(map) = from_raw_parts(ptr, self.len) and map.len() = self.len: %s" % oka, nontrivial=False)
     ctx.count("mapped-view-impls" + tag, len(vs))
     for im, b in vs:
         name = im["self_ty"].get("def", im["self_ty"]["s"])
@@ -191,13 +219,16 @@ def check_views(ctx, F, tag, prefix):
             if t["t"] == "assert" and t["kind"].startswith("Overflow("):
                 ops = [b.term_of_operand(o) for o in t["ops"]]
                 if any(core_param(x) == 1 or (strip_casts(x)[0] == "param" and strip_casts(x)[1] == 1) for x in ops):
-                    ok, f = bounded_by_len(facts_at(b, bi), ("param", 1, b.local_name(2)), strict=True)
+                    ok, f = bounded_by_len(view_facts(b, bi), ("param", 1, b.local_name(2)), strict=True)
                     ctx.ob(prefix + ".offset-bounded-before-arithmetic", "%s|%s%s" % (name, t["kind"], tag), loc(t["sp"]), ok, "guard-dominance",
                            "`%s` on the caller-supplied offset %s" % (t["kind"], "is dominated by offset < map.len()" if ok else
                            "is NOT dominated by a comparison of offset with map.len(): offset = usize::MAX panics (debug) or wraps past the guard (release) instead of returning an error"))
         for s in sites:
-            facts = facts_at(b, s["block"])
-            if s["kind"] == "index":
+            facts = view_facts(b, s["block"])
+            if s["kind"] == "get":
+                ctx.ob(prefix + ".guard-before-index", "%s|get[%s]%s" % (name, tstr(s["idx"]), tag), loc(s["sp"]), True, "checked-read",
+                       "map slice read through slice::get(%s): bounds-checked by the callee, None is handled by the caller's match" % tstr(s["idx"]), nontrivial=False)
+            elif s["kind"] == "index":
                 ok, f = bounded_by_len(facts, s["idx"], strict=True)
                 key = "%s|index[%s]%s" % (name, tstr(s["idx"]), tag)
                 ctx.ob(prefix + ".guard-before-index", key, loc(s["sp"]), ok, "guard-dominance",
